@@ -1,0 +1,237 @@
+// Verification hooks (feature `verif-hooks`). Add-only: nothing here is
+// compiled unless the feature is enabled, and nothing here mutates the
+// type space.
+
+use serde_json::{json, Value};
+
+use crate::{
+    type_entry::{
+        EnumTagType, StructProperty, StructPropertyRename, StructPropertyState, TypeEntry,
+        TypeEntryDetails, TypeEntryNewtypeConstraints, VariantDetails,
+    },
+    RefKey, TypeId, TypeSpace,
+};
+
+fn props(props: &[StructProperty], via: &str) -> Vec<Value> {
+    props
+        .iter()
+        .map(|p| {
+            let (rk, rn) = match &p.rename {
+                StructPropertyRename::None => ("none", String::new()),
+                StructPropertyRename::Rename(s) => ("rename", s.clone()),
+                StructPropertyRename::Flatten => ("flatten", String::new()),
+            };
+            let state = match &p.state {
+                StructPropertyState::Required => "required",
+                StructPropertyState::Optional => "optional",
+                StructPropertyState::Default(_) => "default",
+            };
+            json!({
+                "edge": via,
+                "label": p.name,
+                "to": p.type_id.0,
+                "rename_kind": rk,
+                "rename": rn,
+                "state": state,
+            })
+        })
+        .collect()
+}
+
+fn plain_edge(edge: &str, label: &str, to: &TypeId) -> Value {
+    json!({
+        "edge": edge,
+        "label": label,
+        "to": to.0,
+        "rename_kind": "none",
+        "rename": "",
+        "state": "required",
+    })
+}
+
+fn entry(id: &TypeId, e: &TypeEntry) -> Value {
+    let kind;
+    let mut name = String::new();
+    let mut edges: Vec<Value> = Vec::new();
+    let mut tag = "";
+    let mut deny = false;
+    let mut has_default = false;
+    let mut constraints = "none";
+    let mut builtin = String::new();
+    let mut len = 0usize;
+    match &e.details {
+        TypeEntryDetails::Enum(d) => {
+            kind = "enum";
+            name = d.name.clone();
+            tag = match &d.tag_type {
+                EnumTagType::External => "external",
+                EnumTagType::Internal { .. } => "internal",
+                EnumTagType::Adjacent { .. } => "adjacent",
+                EnumTagType::Untagged => "untagged",
+            };
+            deny = d.deny_unknown_fields;
+            has_default = d.default.is_some();
+            for v in &d.variants {
+                let vn = v.ident_name.clone().unwrap_or_default();
+                match &v.details {
+                    VariantDetails::Simple => {}
+                    VariantDetails::Item(t) => edges.push(plain_edge("variant_item", &vn, t)),
+                    VariantDetails::Tuple(ts) => {
+                        for t in ts {
+                            edges.push(plain_edge("variant_tuple", &vn, t))
+                        }
+                    }
+                    VariantDetails::Struct(ps) => edges.extend(props(ps, "variant_prop")),
+                }
+            }
+        }
+        TypeEntryDetails::Struct(d) => {
+            kind = "struct";
+            name = d.name.clone();
+            deny = d.deny_unknown_fields;
+            has_default = d.default.is_some();
+            edges.extend(props(&d.properties, "prop"));
+        }
+        TypeEntryDetails::Newtype(d) => {
+            kind = "newtype";
+            name = d.name.clone();
+            has_default = d.default.is_some();
+            constraints = match &d.constraints {
+                TypeEntryNewtypeConstraints::None => "none",
+                TypeEntryNewtypeConstraints::EnumValue(_) => "enum",
+                TypeEntryNewtypeConstraints::DenyValue(_) => "deny",
+                TypeEntryNewtypeConstraints::String { .. } => "string",
+            };
+            edges.push(plain_edge("newtype", "0", &d.type_id));
+        }
+        TypeEntryDetails::Native(d) => {
+            kind = "native";
+            builtin = d.type_name.clone();
+            for t in &d.parameters {
+                edges.push(plain_edge("param", "", t));
+            }
+        }
+        TypeEntryDetails::Option(t) => {
+            kind = "option";
+            edges.push(plain_edge("option", "", t));
+        }
+        TypeEntryDetails::Box(t) => {
+            kind = "box";
+            edges.push(plain_edge("box", "", t));
+        }
+        TypeEntryDetails::Vec(t) => {
+            kind = "vec";
+            edges.push(plain_edge("vec", "", t));
+        }
+        TypeEntryDetails::Map(k, v) => {
+            kind = "map";
+            edges.push(plain_edge("map_key", "", k));
+            edges.push(plain_edge("map_value", "", v));
+        }
+        TypeEntryDetails::Set(t) => {
+            kind = "set";
+            edges.push(plain_edge("set", "", t));
+        }
+        TypeEntryDetails::Array(t, n) => {
+            kind = "array";
+            len = *n;
+            edges.push(plain_edge("array", "", t));
+        }
+        TypeEntryDetails::Tuple(ts) => {
+            kind = "tuple";
+            len = ts.len();
+            for t in ts {
+                edges.push(plain_edge("tuple", "", t));
+            }
+        }
+        TypeEntryDetails::Unit => kind = "unit",
+        TypeEntryDetails::Boolean => kind = "boolean",
+        TypeEntryDetails::Integer(n) => {
+            kind = "integer";
+            builtin = n.clone();
+        }
+        TypeEntryDetails::Float(n) => {
+            kind = "float";
+            builtin = n.clone();
+        }
+        TypeEntryDetails::String => kind = "string",
+        TypeEntryDetails::JsonValue => kind = "json",
+        TypeEntryDetails::Reference(t) => {
+            kind = "reference";
+            edges.push(plain_edge("reference", "", t));
+        }
+    }
+    json!({
+        "id": id.0,
+        "kind": kind,
+        "name": name,
+        "edges": edges,
+        "tag": tag,
+        "deny": deny,
+        "has_default": has_default,
+        "constraints": constraints,
+        "builtin": builtin,
+        "len": len,
+        "extra_derives": e.extra_derives.iter().cloned().collect::<Vec<_>>(),
+    })
+}
+
+fn refkey(k: &RefKey) -> String {
+    match k {
+        RefKey::Root => "#".to_string(),
+        RefKey::Def(s) => s.clone(),
+    }
+}
+
+impl TypeSpace {
+    /// Projection of the internal state of the type space (verification only).
+    pub fn verif_snapshot(&self) -> Value {
+        json!({
+            "next_id": self.next_id,
+            "entries": self.id_to_entry.iter().map(|(id, e)| entry(id, e)).collect::<Vec<_>>(),
+            "name_to_id": self.name_to_id.iter()
+                .map(|(k, v)| json!({"k": k, "id": v.0})).collect::<Vec<_>>(),
+            "ref_to_id": self.ref_to_id.iter()
+                .map(|(k, v)| json!({"k": refkey(k), "id": v.0})).collect::<Vec<_>>(),
+            "type_to_id_len": self.type_to_id.len(),
+            "uses_chrono": self.uses_chrono,
+            "uses_uuid": self.uses_uuid,
+            "uses_serde_json": self.uses_serde_json,
+            "uses_regress": self.uses_regress,
+            "defaults": self.defaults.iter().map(|d| format!("{:?}", d)).collect::<Vec<_>>(),
+        })
+    }
+
+    /// Merge a list of schemas the way `allOf` conversion does and return the
+    /// merged schema (verification only; does not touch the type space).
+    pub fn verif_merge_all(
+        schemas: &[schemars::schema::Schema],
+        defs: &std::collections::BTreeMap<String, schemars::schema::Schema>,
+    ) -> schemars::schema::Schema {
+        let defs = defs
+            .iter()
+            .map(|(k, v)| (RefKey::Def(k.clone()), v.clone()))
+            .collect();
+        crate::merge::merge_all(schemas, &defs)
+    }
+}
+
+/// The identifier sanitiser used for fields (snake) and types/variants
+/// (pascal) (verification only).
+pub fn verif_sanitize(input: &str, pascal: bool) -> String {
+    crate::util::sanitize(
+        input,
+        if pascal {
+            crate::util::Case::Pascal
+        } else {
+            crate::util::Case::Snake
+        },
+    )
+}
+
+impl TypeId {
+    /// Numeric value of a type identifier (verification only).
+    pub fn verif_raw(&self) -> u64 {
+        self.0
+    }
+}
